@@ -152,7 +152,9 @@ def gen_project(r, impl, legacy=False, max_files=5, allow_mixed=True, n_files=No
         f0.path, mid.path, twin.path = tree + "/" + base, tree + "/one/" + base, tree + "/deep/er/" + base
         f0.group = mid.group = twin.group = tree + "/**/" + base
         files += [mid, twin]
-    return dict(vp=vp, flags=list(flags), old=old, files=files, date=d, legacy=legacy, cfg_prefix=r.choice(CFG_PREFIXES), key_comment=r.random() < 0.25, dot_slash=r.random() < 0.5)
+    # the configuration lives in any of the supported files (the rewrite must not depend on which)
+    cfg_fmt = r.choice(["bumpver.toml", "bumpver.toml", "pyproject.toml", "setup.cfg", ".bumpver.toml"])
+    return dict(vp=vp, flags=list(flags), old=old, files=files, date=d, legacy=legacy, fmt=cfg_fmt, cfg_prefix=r.choice(CFG_PREFIXES), key_comment=r.random() < 0.25, dot_slash=r.random() < 0.5)
 
 
 def avoid_week53(vp, d):
